@@ -15,7 +15,7 @@ import (
 func init() {
 	register(&Spec{ID: "C16", Title: "Decimal text conversion preserves the numeric value", Run: runC16,
 		Meta: core.Meta{
-			Explanation: "Two rejection clauses of the property are decided; digit arithmetic is not. R16.1 ('invalid precision/scale combinations are rejected at construction'): every success return of NewDecimal and NewDecimalString is dominated by sanity() having returned nil, and sanity's error guards, normalised to half-planes over (Precision, Scale), cover the complement of the valid region 0 <= scale <= precision <= 38, i.e. {P < 0, P > 38, S < 0, S > P}. R16.2 ('input that cannot be represented is rejected'): every success return of SetString is dominated by a comparison of the fraction's length with Scale whose failing edge returns an error, and by big.Int.SetString having reported ok. R16.4 ('rejected instead of silently changing the value'): every math/big call in SetString that modifies its receiver (SetString, Mul, ...) works on a big.Int allocated by that very call, never on dec.i or an alias of it, so an error return leaves the decimal — and every copy sharing its pointer — untouched. R16.5 ('for every precision 1..38 and scale'): every slice/string index and slice expression in the methods of Decimal is proved in range by E-LEN or rests on the reviewed invariant 0 <= Scale <= Precision, whose premises (R10.6) are re-checked — a formatting shortcut that slices a fixed pad or digit table can panic for some precision. R16.3: the magnitude is only ever produced by math/big operations on the parsed digits inside SetString (the assigned value is the *big.Int that SetString parsed and Mul scaled).",
+			Explanation: "Two rejection clauses of the property are decided; digit arithmetic is not. R16.1 ('invalid precision/scale combinations are rejected at construction'): every success return of NewDecimal and NewDecimalString is dominated by sanity() having returned nil, and sanity's error guards, normalised to half-planes over (Precision, Scale), cover the complement of the valid region 0 <= scale <= precision <= 38, i.e. {P < 0, P > 38, S < 0, S > P}. R16.2 ('input that cannot be represented is rejected'): every success return of SetString is dominated by a comparison of the fraction's length with Scale whose failing edge returns an error, and by big.Int.SetString having reported ok. R16.4 ('rejected instead of silently changing the value'): every math/big call in SetString that modifies its receiver (SetString, Mul, ...) works on a big.Int allocated by that very call, never on dec.i or an alias of it, so an error return leaves the decimal — and every copy sharing its pointer — untouched. R16.5 ('for every precision 1..38 and scale'): every slice/string index and slice expression in the methods of Decimal is proved in range by E-LEN or rests on the reviewed invariant 0 <= Scale <= Precision, whose premises (R10.6) are re-checked — a formatting shortcut that slices a fixed pad or digit table can panic for some precision. R16.6: no method of Decimal other than its mutators by contract (Set*, Negate) calls a receiver-modifying math/big method (Abs, Neg, Mul, Set, ...) on dec.i itself — String() on a negative value would otherwise leave the decimal positive, and the text just produced would no longer denote the stored value. R16.3: the magnitude is only ever produced by math/big operations on the parsed digits inside SetString (the assigned value is the *big.Int that SetString parsed and Mul scaled).",
 			NotDecided:  "The format/parse round trip, the canonical text form and all digit arithmetic (padding, splitting at precision-scale, powers of ten) are value-level and not decided; seeded changes that overflow an int64 fast path or a float power of ten are not detectable by these rules.",
 			Assumptions: []string{"math/big semantics"},
 		}})
@@ -29,6 +29,8 @@ func runC16(r *core.Run) {
 	r.Rule("R16.4", "a rejected input leaves the decimal untouched: SetString parses into a big.Int of its own", 1, false)
 	r.Rule("R16.5", "indexing and slicing in the Decimal methods is in range for every valid precision/scale (E-LEN, R10.1)", 2, false)
 	defer c16Sites(r)
+	r.Rule("R16.6", "formatting and reading a decimal do not modify it", 1, false)
+	defer c16ReadOnly(r)
 
 	sanity := p.Func("asetypes", "Decimal", "sanity")
 	fP := p.Field("asetypes", "Decimal", "Precision")
@@ -289,4 +291,37 @@ func c16Sites(r *core.Run) {
 	if n == 0 {
 		r.Unknown("R16.5", "Decimal methods: index/slice sites", token.NoPos, "no index or slice expression found in the methods of Decimal")
 	}
+}
+
+// c16ReadOnly: R16.6.
+func c16ReadOnly(r *core.Run) {
+	p := r.Prog
+	dec := p.Named("asetypes", "Decimal")
+	fI := p.Field("asetypes", "Decimal", "i")
+	ss := p.Func("asetypes", "Decimal", "SetString")
+	n := 0
+	for _, fn := range p.ModuleFuncs() {
+		if fn.Blocks == nil || fn == ss || core.RecvNamed(fn) == nil || core.RecvNamed(fn).Obj() != dec.Obj() {
+			continue
+		}
+		if strings.HasPrefix(fn.Name(), "Set") || fn.Name() == "Negate" {
+			continue // mutators by contract
+		}
+		n++
+		for _, c := range core.Calls(fn) {
+			f := core.StaticCallee(c)
+			if f == nil || f.Pkg == nil || f.Pkg.Pkg.Path() != "math/big" || f.Signature.Recv() == nil || len(c.Common().Args) == 0 {
+				continue
+			}
+			switch f.Name() {
+			case "SetString", "Mul", "Add", "Sub", "Set", "SetInt64", "SetUint64", "Exp", "Neg", "Quo", "Div", "Rem", "Mod", "SetBytes", "Lsh", "Rsh", "Abs", "Not", "And", "Or", "Xor", "SetBit", "Sqrt", "QuoRem", "DivMod":
+			default:
+				continue
+			}
+			if g, _ := core.FieldLoad(core.Strip(c.Common().Args[0])); g == fI {
+				r.Bad("R16.6", core.FuncName(fn)+": big.Int."+f.Name()+" on dec.i", c.Pos(), "big.Int."+f.Name()+" stores its result in its receiver, and the receiver here is the decimal's own magnitude dec.i: calling "+fn.Name()+"() changes the value (e.g. formatting a negative decimal leaves it positive), so the text produced no longer denotes what is stored")
+			}
+		}
+	}
+	r.Check(n > 0, "R16.6", "Decimal methods other than the mutators (Set*, Negate) leave dec.i untouched", token.NoPos, fmt.Sprintf("%d methods inspected", n), "no methods of Decimal found")
 }
